@@ -238,6 +238,7 @@ func (r *runner) encOut(c Cfg, it rt.SinkItem) rt.M {
 				vals[i] = vfield(bp.Fields(), parentNames[i]+".v")
 			}
 			pm["vals"] = vals
+			pm["nf"] = len(bp.Fields())
 		}
 		pts = append(pts, pm)
 	}
